@@ -802,6 +802,7 @@ def compare(psrc, qsrc, opts, ptree=None, qtree=None):
     # nodes are identified by position, which the normalised parses share
     pm_ = S.resolve(ptree)
     qm_ = S.resolve(qtree)
+    pm_norm = S.resolve(pn)     # what the input's names resolve to once the removable statements are gone (used only for bindings that vanish with them)
     m = Matcher(opts, None)
     m.node(pn, qn, 'module')
     rep = m.r
@@ -961,8 +962,22 @@ def compare(psrc, qsrc, opts, ptree=None, qtree=None):
                 res.problems.append({'kind': 'free-name-captured-or-changed',
                                      'detail': '%s refers to no binding in the input (builtin / outside name) but %s in the output resolves to %r' % (po.raw, qo.raw, qb)})
             continue
-        if qb[0] == 'free' and qo.raw == po.raw and p_binding_dropped(pb):
-            continue        # its only bindings were in statements the options removed; the name keeps its spelling
+        q_kept_too = qb[0] == 'b' and bool(q_binders.get((qb[1], qb[2]))) and all(o.key not in paired_q for o in q_binders[(qb[1], qb[2])])
+        if pb[0] == 'b' and p_binding_dropped(pb) and not q_kept_too:
+            # every binding occurrence of this input binding sits in a statement the enabled options remove: the occurrence then
+            # resolves as in the input without those statements
+            pon = pm_norm.occ.get(pkey)
+            nb = pon.binding if pon is not None else None
+            if nb is not None and nb[0] == 'b':
+                raw_idx = pscope_idx.get(S.nkey(pm_norm.scopes[nb[1]].node))
+                nb = ('b', raw_idx, nb[2]) if raw_idx is not None else None
+            if nb is not None:
+                pb = nb
+            if pb[0] == 'free':
+                if qb != pb and not (qb[0] == 'free' and po.name != po.raw and qo.raw == po.raw):
+                    res.problems.append({'kind': 'free-name-captured-or-changed',
+                                         'detail': '%s refers to no binding in the input once the removed statements are gone, but %s in the output resolves to %r' % (po.raw, qo.raw, qb)})
+                continue
         if qb[0] == 'free':
             res.problems.append({'kind': 'bound-name-became-free', 'detail': '%s (binding %r) became %s which resolves to no binding' % (po.raw, pb, qo.raw)})
             continue
